@@ -20,6 +20,7 @@ FOREIGN_PANICKY = {
     '<std::time::Instant as std::ops::Sub<std::time::Duration>>::sub': 'Instant - Duration',
     'std::vec::Vec::<T, A>::remove': 'Vec::remove', 'std::vec::Vec::<T, A>::swap_remove': 'Vec::swap_remove', 'std::vec::Vec::<T, A>::insert': 'Vec::insert',
     'core::slice::<impl [T]>::swap': 'slice::swap',
+    'std::cmp::impls::<impl std::cmp::Ord for u16>::clamp': 'Ord::clamp (panics when min > max)', 'std::cmp::Ord::clamp': 'Ord::clamp (panics when min > max)',
 }
 
 
